@@ -26,6 +26,8 @@ HTML_NS = "http://www.w3.org/1999/xhtml"
 class Recorder(xml.sax.handler.ContentHandler):
     def __init__(self):
         self.events = []
+        self.prefixes = {}       # prefix -> namespace, as announced by startPrefixMapping
+        self.qname_problem = None
 
     def startDocument(self):
         self.events.append(("startDocument",))
@@ -34,6 +36,7 @@ class Recorder(xml.sax.handler.ContentHandler):
         self.events.append(("endDocument",))
 
     def startPrefixMapping(self, prefix, uri):
+        self.prefixes[prefix] = uri
         self.events.append(("startPrefixMapping", prefix, uri))
 
     def endPrefixMapping(self, prefix):
@@ -43,6 +46,18 @@ class Recorder(xml.sax.handler.ContentHandler):
         items = {}
         for k in attrs.getNames():
             items[k] = attrs.getValue(k)
+            if k[0] is not None and self.qname_problem is None:
+                # a namespaced attribute: its qualified name has to resolve through the announced prefix mappings
+                try:
+                    qn = attrs.getQNameByName(k)
+                    back = attrs.getNameByQName(qn)
+                    val = attrs.getValueByQName(qn)
+                except Exception as e:
+                    self.qname_problem = "qualified name of attribute %r cannot be looked up: %s: %s" % (k, type(e).__name__, e)
+                    continue
+                prefix, _, local = qn.rpartition(":")
+                if back != k or val != items[k] or local != k[1] or (prefix and self.prefixes.get(prefix) != k[0]):
+                    self.qname_problem = "attribute %r has qualified name %r (maps back to %r, prefix %r bound to %r)" % (k, qn, back, prefix, self.prefixes.get(prefix))
         self.events.append(("startElementNS", tuple(name), qname, items))
 
     def endElementNS(self, name, qname):
@@ -167,6 +182,8 @@ def check_case(case):
             return Verdict("fail", "to_sax raised %s: %s on the %s walk of %s" % (type(e).__name__, short(str(e), 80), builder, short(text, 150)),
                            "to_sax-exception:" + type(e).__name__, nontrivial=True)
         msg = grammar_violation(rec.events)
+        if msg is None and rec.qname_problem:
+            msg = rec.qname_problem
         if msg is None:
             got = rebuild(rec.events, want[0][1])
             if got != want:
@@ -203,11 +220,17 @@ def check_case(case):
 def shards(tier):
     quick = tier == "quick"
     profs = ["foreign", "foreign", "general", "table", "formatting", "head", "select", "raw"]
-    return [{"kind": "hyp", "profile": profs[i % len(profs)], "n": 1500 if quick else 40000} for i in range(16)]
+    return [{"kind": "hyp", "profile": profs[i % len(profs)], "n": 1500 if quick else 40000} for i in range(16)] + [{"kind": "long"}]
 
 
 def run_shard(desc, seed, tier):
     acc = Acc()
+    if desc["kind"] == "long":
+        for text in soup.long_docs():
+            case = {"text": text, "container": None, "scripting": False, "namespace": True}
+            acc.add(case, check_case(case))
+        return acc
+
     strat = st.tuples(soup.soup_text(profile=desc["profile"], max_items=40), st.one_of(st.none(), st.none(), st.sampled_from(soup.CONTEXTS)), st.booleans(), st.booleans())
 
     def fn(x):
